@@ -67,7 +67,7 @@ package engine
 //@   nopanic
 //@   use seqloop(1, rules, true)
 //@   use selectedfacts(1, names)
-//@   loop 1 invariant [C04] sorted: sortedDesc(rules)
+//@   loop 1 invariant [C04,C12] sorted: sortedDesc(rules)
 
 //@ func (*Gengine).ExecuteConcurrent$1
 //@   use ruletask(wg, C05 C09 C11)
@@ -200,7 +200,7 @@ package engine
 //@   nopanic
 //@   use seqloop(1, rules, b)
 //@   use selectedfacts(1, names)
-//@   loop 1 invariant [C04] sorted: sortedDesc(rules)
+//@   loop 1 invariant [C04,C12] sorted: sortedDesc(rules)
 
 //@ func (*Gengine).ExecuteSelectedRulesWithControlAsGivenSortedName
 //@   props C11 C09 C12 C07
@@ -243,7 +243,7 @@ package engine
 //@   nopanic
 //@   use seqloop(1, rules, b)
 //@   use selectedfacts(1, names)
-//@   loop 1 invariant [C04] sorted: sortedDesc(rules)
+//@   loop 1 invariant [C04,C12] sorted: sortedDesc(rules)
 
 //@ func (*Gengine).ExecuteSelectedRulesWithControlAndStopTagAsGivenSortedName
 //@   props C11 C09 C12 C14 C07
